@@ -23,7 +23,7 @@ def canon(x):
 
 def main():
     scenario, dynamic, seed, episodes = sys.argv[1], sys.argv[2] == "1", int(sys.argv[3]), int(sys.argv[4])
-    cfg = nsgenv.base_config(scenario, use_dynamic_addresses=dynamic, required_players=2)
+    cfg = nsgenv.base_config(scenario, use_dynamic_addresses=dynamic, required_players=4)
     cfg["coordinator"]["agents"]["Attacker"]["max_steps"] = 6
     cfg["coordinator"]["agents"]["Attacker"]["start_position"]["controlled_hosts"] = ["random"]
     cfg["coordinator"]["agents"]["Attacker"]["goal"]["known_data"] = {}
@@ -40,48 +40,56 @@ def main():
     sp = cfg["coordinator"]["agents"]["Attacker"]["start_position"]
     sp["controlled_hosts"] = ([others[0]] if others else []) + cands[:2] + ["random"]
     sp["known_hosts"] = others[1:4]
+    cfg["env"]["required_players"] = 4
     d = nsgenv.start(cfg, seed=seed)
     g = d.g
     transcript = []
-    a, b = ("10.5.0.1", 1), ("10.5.0.2", 2)
+    # three attackers (each with a 'random' start host) and one defender; addresses are fixed
+    attackers = [("10.5.0.1", 1), ("10.5.0.3", 3), ("10.5.0.4", 4)]
+    b = ("10.5.0.2", 2)
+    a = attackers[0]
+    everyone = attackers + [b]
 
     def exchange(addr, text):
         d.send(addr, text)
         d.settle()
 
     def drain():
-        for addr in (a, b):
+        for addr in everyone:
             for raw in d.new_output(addr):
                 doc = json.loads(raw[:-3].decode())
                 doc.pop("to_agent", None)
                 transcript.append([addr[1], canon(doc)])
 
-    d.connect(a)
-    d.connect(b)
+    for addr in everyone:
+        d.connect(addr)
     d.settle()
-    exchange(a, nsgenv.join("alice", "Attacker"))
+    for i, addr in enumerate(attackers):
+        exchange(addr, nsgenv.join("alice%d" % i, "Attacker"))
     exchange(b, nsgenv.join("dora", "Defender"))
     drain()
     for ep in range(episodes):
         for step in range(6):
-            st = g._agent_states[a]
-            ctrl = sorted(str(h) for h in st.controlled_hosts)
-            known = sorted(str(h) for h in st.known_hosts)
-            nets = sorted((n.ip, n.mask) for n in st.known_networks)
-            if step % 3 == 0 and nets:
-                n = nets[(ep + step) % len(nets)]
-                exchange(a, msg("ScanNetwork", source_host=ip(ctrl[0]), target_network={"ip": n[0], "mask": n[1]}))
-            elif step % 3 == 1:
-                exchange(a, msg("FindServices", source_host=ip(ctrl[0]), target_host=ip(known[(ep + step) % len(known)])))
-            else:
-                svcs = sorted(((str(h), s) for h, ss in st.known_services.items() for s in ss), key=lambda x: (x[0], x[1].name))
-                if svcs:
-                    h, s = svcs[(ep + step) % len(svcs)]
-                    exchange(a, msg("ExploitService", source_host=ip(ctrl[0]), target_host=ip(h),
-                                    target_service={"name": s.name, "type": s.type, "version": s.version, "is_local": s.is_local}))
+            for who, a in enumerate(attackers):
+                st = g._agent_states[a]
+                ctrl = sorted(str(h) for h in st.controlled_hosts)
+                known = sorted(str(h) for h in st.known_hosts)
+                nets = sorted((n.ip, n.mask) for n in st.known_networks)
+                k = ep + step + who
+                if k % 3 == 0 and nets:
+                    n = nets[k % len(nets)]
+                    exchange(a, msg("ScanNetwork", source_host=ip(ctrl[0]), target_network={"ip": n[0], "mask": n[1]}))
+                elif k % 3 == 1:
+                    exchange(a, msg("FindServices", source_host=ip(ctrl[0]), target_host=ip(known[k % len(known)])))
                 else:
-                    exchange(a, msg("FindData", source_host=ip(ctrl[0]), target_host=ip(ctrl[0])))
-            drain()
+                    svcs = sorted(((str(h), s) for h, ss in st.known_services.items() for s in ss), key=lambda x: (x[0], x[1].name))
+                    if svcs:
+                        h, s = svcs[k % len(svcs)]
+                        exchange(a, msg("ExploitService", source_host=ip(ctrl[0]), target_host=ip(h),
+                                        target_service={"name": s.name, "type": s.type, "version": s.version, "is_local": s.is_local}))
+                    else:
+                        exchange(a, msg("FindData", source_host=ip(ctrl[0]), target_host=ip(ctrl[0])))
+                drain()
             dst = g._agent_states[b]
             dctrl = sorted(str(h) for h in dst.controlled_hosts)
             if step % 2 == 0:
@@ -89,7 +97,8 @@ def main():
             else:
                 exchange(b, msg("BlockIP", source_host=ip(dctrl[0]), target_host=ip(dctrl[0]), blocked_host=ip(dctrl[-1])))
             drain()
-        exchange(a, msg("ResetGame", request_trajectory="True"))
+        for i, a in enumerate(attackers):
+            exchange(a, msg("ResetGame", request_trajectory="True") if i == 0 else msg("ResetGame"))
         exchange(b, msg("ResetGame"))
         drain()
     errors = [str(e) for e in d.task_errors]
